@@ -128,7 +128,20 @@ func classify(p []byte) string {
 func tagsOf(steps []step, extra ...string) string {
 	set := map[string]bool{}
 	nt := false
+	ntsBy := map[int]bool{} // sockets that have sent a valid NTS request so far
 	for _, s := range steps {
+		if s.k == kLiteral && classify(s.data) == "valid48" && len(ntsBy) > 0 {
+			// a plain well-formed request after a valid NTS request: from the same socket (same
+			// listener goroutine for sure) or from another one (same goroutine for one in eight)
+			if ntsBy[s.sender] {
+				set["nts-then-plain-same"] = true
+			} else {
+				set["nts-then-plain-other"] = true
+			}
+		}
+		if s.k == kNTS && (s.a == 0 || s.a == 8) && len(s.data) > 0 && wfFirst(s.data[0]) {
+			ntsBy[s.sender] = true
+		}
 		switch s.k {
 		case kLiteral:
 			set[classify(s.data)] = true
@@ -427,6 +440,53 @@ func genHistory(r *lib.Rng, n int, withHdr bool) []step {
 	return steps
 }
 
+// genNTSThenPlain: a valid NTS request from one socket, then plain requests from the same
+// socket and from many other source ports (the kernel's SO_REUSEPORT hash puts about one in
+// eight of them on the goroutine that handled the NTS request), with a few other datagrams
+// mixed in.  Every well-formed request of such a history must be answered once, whatever the
+// goroutine that serves it handled before.
+func genNTSThenPlain(r *lib.Rng, withHdr bool, maxOthers int) []step {
+	var steps []step
+	var hdrA *hdrSpec
+	if withHdr {
+		hdrA = genHdr(r)
+	}
+	add := func(s step, own bool) {
+		if withHdr {
+			if own && r.Intn(3) != 0 {
+				h := *hdrA
+				s.hdr = &h
+			} else {
+				s.hdr = genHdr(r)
+			}
+		}
+		steps = append(steps, s)
+	}
+	plain := func() []byte { return header(r, lib.Pick(r, validFirst...), 3+r.Intn(2)) }
+	a := r.Intn(nSocks)
+	if r.Intn(3) == 0 { // the socket is already known to the listener as a plain client
+		add(step{sender: a, k: kLiteral, data: plain()}, true)
+	}
+	add(step{sender: a, k: kNTS, a: int64(lib.Pick(r, 0, 0, 0, 8)), data: []byte{lib.Pick(r, validFirst...)}}, true)
+	add(step{sender: a, k: kLiteral, data: plain()}, true)
+	n := 4 + r.Intn(maxOthers)
+	first, stride := r.Intn(nSocks), lib.Pick(r, 1, 3, 5, 7, 11, 13)
+	for j := 0; j < n; j++ {
+		snd := (first + j*stride) % nSocks
+		switch r.Intn(10) {
+		case 0: // anything
+			p, _ := genPayload(r)
+			add(step{sender: snd, k: kLiteral, data: p}, false)
+		case 1: // another NTS request, valid or damaged, on some goroutine
+			add(step{sender: snd, k: kNTS, a: int64(lib.Pick(r, 0, 0, 1, 2, 5, 8)), data: []byte{lib.Pick(r, validFirst...)}}, false)
+		default:
+			add(step{sender: snd, k: kLiteral, data: plain()}, false)
+		}
+	}
+	add(step{sender: a, k: kLiteral, data: plain()}, true)
+	return steps
+}
+
 func child(a lib.Args) {
 	d := newDrv()
 	r := lib.NewRng(a.Seed)
@@ -530,6 +590,17 @@ func child(a lib.Args) {
 			one(r.Intn(nSocks), p, "lengths")
 		}
 	}
+	// 3b. a valid NTS request, then plain requests from the same and from many other source ports
+	// (before the single NTS steps: if the listener stops serving after an NTS request, the case
+	// that reports it shows the plain requests that follow as well)
+	nFan := 150
+	if thorough {
+		nFan = 3000
+	}
+	for i := 0; i < nFan && !d.lost; i++ {
+		steps := genNTSThenPlain(r, false, 40)
+		d.runIP(tagsOf(steps, "history", "fan"), steps, r)
+	}
 	// 4. NTS: real requests, intact and damaged, with valid and invalid first bytes
 	nNTS := 6
 	if thorough {
@@ -598,6 +669,14 @@ func child(a lib.Args) {
 				d.runSCION(tagsOf(steps, "nts"), steps, r)
 			}
 		}
+	}
+	nFanS := 40
+	if thorough {
+		nFanS = 1000
+	}
+	for i := 0; i < nFanS && !d.lost; i++ {
+		steps := genNTSThenPlain(r, true, 12)
+		d.runSCION(tagsOf(steps, "history", "fan"), steps, r)
 	}
 	nHistS := 400
 	if thorough {
